@@ -230,13 +230,12 @@ class DirectEval:
                 self.executed_bodies += 1
                 self.block(st["body"])
         elif op == "loop":
-            i = st["start"]
-            while i != st["stop"]:
+            # documented meaning: the index runs over range(start, stop, step) (stop excluded)
+            for i in range(st["start"], st["stop"], st["step"]):
                 self.tick()
                 self.vars[st["var"]] = i
                 self.iterations += 1
                 self.block(st["body"])
-                i += st["step"]
         elif op == "foreach":
             n = len(self.arrays[st["array"]])
             iv = st.get("idxvar") or ("_i_" + st["var"])
